@@ -1,6 +1,8 @@
 package main
 
 import (
+	"os"
+	"go/token"
 	"fmt"
 	"go/types"
 	"runtime/debug"
@@ -143,6 +145,17 @@ func verifyFunc(p *Program, c *FuncContract) (res *FuncResult) {
 	if msg := p.missingCallSites(c, fn); msg != "" {
 		ex.obls = append(ex.obls, &Obligation{Name: c.Name + "/shape:call-site-exists:" + strings.Fields(strings.TrimPrefix(msg, "call clause for "))[0], Func: c.Name, Kind: "shape", PC: ex.tb.True, Claim: ex.tb.False, Entry: ex.entry, Detail: msg})
 	}
+	if os.Getenv("GOVC_DEBUG_SITES") != "" {
+		for _, kind := range []string{"return", "store", "append", "copy", "close", "select", "send", "makechan", "mapupdate", "go"} {
+			for _, b := range fn.Blocks {
+				for _, in := range b.Instrs {
+					if o := p.kindOrdinal(in, kind); o >= 0 {
+						fmt.Fprintf(os.Stderr, "SITE %s %s#%d line %d\n", c.Name, kind, o, p.prog.Fset.Position(in.Pos()).Line)
+					}
+				}
+			}
+		}
+	}
 	// likewise every at-clause must name an instruction of that kind (and ordinal) that exists
 	for _, what := range p.missingAtSites(c, fn) {
 		ex.obls = append(ex.obls, &Obligation{Name: c.Name + "/shape:at-site-exists:" + what, Func: c.Name, Kind: "shape", PC: ex.tb.True, Claim: ex.tb.False, Entry: ex.entry, Detail: "at " + what + ": no such instruction in the function any more"})
@@ -154,6 +167,9 @@ func verifyFunc(p *Program, c *FuncContract) (res *FuncResult) {
 		penv := &Env{ex: ex, st: r.st, old: ex.oldState, vars: map[string]*Value{}, pkg: c.Pkg, contract: c}
 		for k, v := range ex.entryEnv {
 			penv.vars[k] = v
+		}
+		if len(fn.FreeVars) > 0 {
+			penv.fr = fr // a closure's postcondition may speak about its captured variables
 		}
 		for i, n := range c.ResultNames {
 			if i < len(r.results) && n != "" && n != "_" {
@@ -407,6 +423,17 @@ func (p *Program) missingAtSites(c *FuncContract, fn *ssa.Function) []string {
 			}
 			if (ord < 0 && n > 0) || (ord >= 0 && n > ord) {
 				found = true
+			}
+			// the k-th instruction by position must be a real one: in a function with defers the
+			// first "return" is the synthetic recover block (no position, never executed normally)
+			if ord >= 0 && n > ord {
+				for _, b := range f.Blocks {
+					for _, in := range b.Instrs {
+						if kindMatches(in, kind) && p.kindOrdinal(in, kind) == ord && in.Pos() == token.NoPos {
+							found = false
+						}
+					}
+				}
 			}
 		}
 		if !found {
